@@ -175,11 +175,48 @@ def main(ctx, args):
                 st["bad"] += 1
                 ctx.violation("read-then-write of a random %d-byte file is not the identity" % len(data),
                               {"input_hex": data.hex()}, {"kind": "roundtrip"})
+    # reading again: the buffer holds file content A, another program replaces the file by B, :e! - what :w writes is B
+    CONT = [b"", b"one\n", b"a\nb\nc\n", b"x" * 5000 + b"\nend\n", b"no newline", b"\n\n", b"\xc3\xa9\n" * 600]
+
+    def reload_case(ab):
+        a, b = ab
+        work = tempfile.mkdtemp(prefix="rl-", dir=ctx.scratch)
+        open(os.path.join(work, "in"), "wb").write(CONT[a])
+        open(os.path.join(work, "new"), "wb").write(CONT[b])
+        env = {"PATH": os.environ.get("PATH", ""), "HOME": work}
+        env.update(ASAN_ENV)
+        outs = []
+        for script in (b"e in\n!cp new in\ne!\nw! out\nq!\n", b"e in\n!cp new in\ne\nw! out\nq!\n", b"e in\n1,$d\nr new\nw! out\nq!\n"):
+            open(os.path.join(work, "in"), "wb").write(CONT[a])
+            try:
+                p = subprocess.run([os.path.join(ctx.build(), "vi"), "-s", "-e"], input=script, capture_output=True, env=env, cwd=work, timeout=30)
+                rc = p.returncode
+            except subprocess.TimeoutExpired:
+                rc = -9
+            have = open(os.path.join(work, "out"), "rb").read() if os.path.exists(os.path.join(work, "out")) else None
+            if os.path.exists(os.path.join(work, "out")):
+                os.remove(os.path.join(work, "out"))
+            outs.append((script, rc, have))
+        shutil.rmtree(work, True)
+        want = CONT[b] + (b"\n" if CONT[b] and not CONT[b].endswith(b"\n") else b"")
+        return a, b, want, outs
+    st["reloads"] = 0
+    with ThreadPoolExecutor(NCPU) as ex:
+        for a, b, want, outs in ex.map(reload_case, [(a, b) for a in range(len(CONT)) for b in range(len(CONT))]):
+            for script, rc, have in outs:
+                st["reloads"] += 1
+                if rc != 0 or have != want:
+                    st["bad"] += 1
+                    ctx.violation("the file is replaced by %d bytes while the buffer holds %d bytes; after %r the written copy has %s bytes (rc %s)" %
+                                  (len(CONT[b]), len(CONT[a]), script.decode(), None if have is None else len(have), rc),
+                                  {"old_hex": CONT[a][:200].hex(), "new_hex": CONT[b][:200].hex(), "script": script.decode(),
+                                   "written_hex": None if have is None else have[:200].hex()}, {"kind": "reload"})
     cov = {"states": mc["distinct"], "transitions": mc["generated"], "traces_validated_against_impl": st["ok"] + st["random_files"],
            "samples": samples or [results[0][1]], "evaluations": len(shp) + nrand, "distinct_nontrivial": st["ok"],
            "rule": "shapes = line-length lists around the write batch (4096), the read chunk (1024), the string-buffer quantum (128) and "
                    "the line-table sizes (512, 1024), with ranges a..b, previous target shorter / equal / longer, final newline present "
-                   "or not; one evaluation = one read + write by the binary compared byte for byte; random files over bytes 1..255",
+                   "or not; one evaluation = one read + write by the binary compared byte for byte; random files over bytes 1..255; "
+                   "reloads: 7 x 7 pairs (old content, new content incl. the empty file) through :e!, :e and :r into the emptied buffer",
            "stats": st, "model_scope": consts, "exhaustive": True,
            "explanation": "TLC explored MC_FileIO completely for model_scope (WrittenExact, SbufOK, BufBound, Split/Join laws)"}
     return ctx.finish("model_checking", cov, ["NUL bytes are outside the property", "a failing ftruncate is not injected",
